@@ -262,3 +262,7 @@ func EventText(kind string) string { return "" }
 // FrozenAliases: engine-only (number of pointers / addressable reflect.Values
 // reachable from the arguments that alias a frozen cell).
 func FrozenAliases(vs ...interface{}) int { return 0 }
+
+// SchedChannelsOnly: schedule exploration switches only at channel
+// operations and goroutine starts (not at mutex operations).
+func SchedChannelsOnly(on bool) {}
